@@ -364,7 +364,7 @@ func (rm *RegistrationManager) parseRegMessage(msg []byte) ([]*DecoyRegistration
 func (rm *RegistrationManager) NewRegistration(c2s *pb.ClientToStation, conjureKeys *core.ConjureSharedKeys, includeV6 bool, registrationSource *pb.RegistrationSource) (*DecoyRegistration, error) {
 	gen := uint(c2s.GetDecoyListGeneration())
 	clientLibVer := uint(c2s.GetClientLibVersion())
-	phantomAddr, err := rm.PhantomSelector.Select(
+	phantomAddr, err := rm.phantomSelector().Select(
 		conjureKeys.ConjureSeed, gen, clientLibVer, includeV6)
 
 	if err != nil {
@@ -499,11 +499,12 @@ func (rm *RegistrationManager) NewRegistrationC2SWrapper(c2sw *pb.C2SWrapper, in
 	}
 
 	reg.registrationAddr = clientAddr
-	reg.regCC, err = rm.GeoIP.CC(reg.registrationAddr)
+	geoIP := rm.GetGeoIP()
+	reg.regCC, err = geoIP.CC(reg.registrationAddr)
 	if err != nil {
 		return nil, fmt.Errorf("failed geoip cc lookup: %w", err)
 	}
-	reg.regASN, err = rm.GeoIP.ASN(reg.registrationAddr)
+	reg.regASN, err = geoIP.ASN(reg.registrationAddr)
 	if err != nil {
 		return nil, fmt.Errorf("failed geoip asn lookup: %w", err)
 	}
@@ -566,7 +567,8 @@ func handleConnectingTpReg(regManager *RegistrationManager, reg *DecoyRegistrati
 			go func(transport ConnectingTransport) {
 				defer cancelFunc()
 
-				cc, err := regManager.GeoIP.CC(reg.registrationAddr)
+				geoIP := regManager.GetGeoIP()
+				cc, err := geoIP.CC(reg.registrationAddr)
 				if err != nil {
 					logger.Errorln("Failed to get CC:", err)
 					return
@@ -574,7 +576,7 @@ func handleConnectingTpReg(regManager *RegistrationManager, reg *DecoyRegistrati
 
 				var asn uint = 0
 				if cc != "unk" {
-					asn, err = regManager.GeoIP.ASN(reg.registrationAddr)
+					asn, err = geoIP.ASN(reg.registrationAddr)
 					if err != nil {
 						logger.Errorln("Failed to get ASN:", err)
 						return
